@@ -1,8 +1,271 @@
 package main
 
-import "fmt"
+import (
+	"encoding/json"
+	"fmt"
+	"os"
+	"os/exec"
+	"path/filepath"
+	"sort"
+	"strings"
+	"sync"
+	"time"
+
+	"verif/sim/proto"
+)
 
 func selftest(kind string, args []string) int {
-	fmt.Println("selftest", kind, "not built yet")
+	switch kind {
+	case "determinism":
+		return selftestDeterminism(args)
+	case "sensitivity":
+		return selftestSensitivity(args)
+	}
+	usage()
 	return 2
+}
+
+// canonical strips what is allowed to differ between two executions of the same run.
+func canonical(e proto.End) string {
+	e.WallUs = 0
+	b, _ := json.Marshal(e)
+	return string(b)
+}
+
+// selftestDeterminism runs the same seeds in many processes (plain and race builds, GOMAXPROCS 1/4/16,
+// different numbers of concurrent children) and requires identical per-run records.
+func selftestDeterminism(args []string) int {
+	props := args
+	if len(props) == 0 {
+		props = planIDs()
+	}
+	nPlain, nRace := 2000, 250
+	if v := os.Getenv("VERIF_DET_RUNS"); v != "" {
+		fmt.Sscanf(v, "%d", &nPlain)
+		nRace = nPlain / 8
+	}
+	b := newBuilder()
+	defer b.cleanup()
+	seed := baseSeed()
+	bad := 0
+	for _, prop := range props {
+		plan, ok := plans[prop]
+		if !ok {
+			fatal(2, "unknown property %s", prop)
+		}
+		flavours := []string{"plain", "race"}
+		if plan.Engine == "curlsim" {
+			flavours = []string{"plain", "race", "purego"}
+		}
+		type job struct {
+			flavour string
+			gmp     int
+			n       int
+		}
+		var jobs []job
+		for rep := 0; rep < 5; rep++ {
+			for _, f := range flavours {
+				for _, g := range []int{1, 4, 16} {
+					n := nPlain
+					if f == "race" {
+						n = nRace
+					}
+					if f == "purego" && rep > 0 {
+						continue
+					}
+					jobs = append(jobs, job{f, g, n})
+				}
+			}
+		}
+		results := make([]map[int]string, len(jobs))
+		troubles := make([]string, len(jobs))
+		var wg sync.WaitGroup
+		// two waves with different numbers of concurrent children
+		sem1 := make(chan struct{}, 16)
+		sem2 := make(chan struct{}, 3)
+		start := time.Now()
+		for i, j := range jobs {
+			bin, err := b.binary(j.flavour)
+			if err != nil {
+				fmt.Fprintln(os.Stderr, err)
+				return 2
+			}
+			sem := sem1
+			if i%5 == 4 {
+				sem = sem2
+			}
+			wg.Add(1)
+			go func(i int, j job, bin string) {
+				defer wg.Done()
+				sem <- struct{}{}
+				defer func() { <-sem }()
+				r := runChild(bin, proto.Spec{Prop: prop, Tier: "quick", BaseSeed: seed, From: 0, To: j.n, Flavour: j.flavour, GoMaxProcs: j.gmp}, 60*time.Minute)
+				m := map[int]string{}
+				for _, e := range r.ends {
+					m[e.Run] = canonical(e)
+				}
+				for _, d := range r.deaths {
+					m[d.Begin.Run] = "DEATH " + d.Class
+				}
+				results[i], troubles[i] = m, r.trouble
+			}(i, j, bin)
+		}
+		wg.Wait()
+		mismatch := 0
+		for i, j := range jobs {
+			if troubles[i] != "" {
+				fmt.Printf("determinism %s: job %d (%s, GOMAXPROCS=%d): TROUBLE %s\n", prop, i, j.flavour, j.gmp, troubles[i])
+				mismatch++
+				continue
+			}
+			if len(results[i]) != j.n {
+				fmt.Printf("determinism %s: job %d (%s, GOMAXPROCS=%d): %d records instead of %d\n", prop, i, j.flavour, j.gmp, len(results[i]), j.n)
+				mismatch++
+			}
+			for run, rec := range results[i] {
+				ref := results[0][run]
+				if j.flavour == "purego" {
+					continue // different build configuration of the system under test; compared with itself only
+				}
+				if rec != ref {
+					mismatch++
+					if mismatch < 5 {
+						fmt.Printf("determinism %s: run %d differs between job 0 (plain, GOMAXPROCS=1) and job %d (%s, GOMAXPROCS=%d):\n  %s\n  %s\n", prop, run, i, j.flavour, j.gmp, ref, rec)
+					}
+				}
+			}
+		}
+		fmt.Printf("determinism %s: %d processes, %d plain / %d race runs each, %d mismatching records, %.1fs\n", prop, len(jobs), nPlain, nRace, mismatch, time.Since(start).Seconds())
+		bad += mismatch
+	}
+	if bad > 0 {
+		return 1
+	}
+	return 0
+}
+
+type mutantMeta struct {
+	Property string `json:"property"`
+	Expect   string `json:"expect"` // violation | clean
+	Note     string `json:"note"`
+	Tier     string `json:"tier,omitempty"`
+	Scale    string `json:"scale,omitempty"`
+}
+
+// selftestSensitivity applies each patch of /verif/mutants (and /verif/seeded) to a scratch copy of the
+// repository, checks that the copy still builds, and runs the quick check of the targeted property against
+// it: patches marked "violation" must be caught, behaviour-preserving patches marked "clean" must not be.
+func selftestSensitivity(args []string) int {
+	var dirs []string
+	for _, root := range []string{"mutants", "seeded"} {
+		ents, _ := os.ReadDir(filepath.Join(verifDir, root))
+		for _, e := range ents {
+			if e.IsDir() {
+				dirs = append(dirs, filepath.Join(verifDir, root, e.Name()))
+			}
+		}
+	}
+	sort.Strings(dirs)
+	self, _ := os.Executable()
+	fails := 0
+	var lines []string
+	for _, d := range dirs {
+		name := filepath.Base(d)
+		if len(args) > 0 {
+			keep := false
+			for _, a := range args {
+				if strings.Contains(name, a) {
+					keep = true
+				}
+			}
+			if !keep {
+				continue
+			}
+		}
+		mb, err := os.ReadFile(filepath.Join(d, "meta.json"))
+		if err != nil {
+			continue
+		}
+		var meta mutantMeta
+		var raw map[string]any
+		json.Unmarshal(mb, &raw)
+		json.Unmarshal(mb, &meta)
+		if meta.Property == "" {
+			if v, ok := raw["breaks"].(string); ok {
+				meta.Property = v
+			}
+		}
+		if meta.Expect == "" {
+			meta.Expect = "violation"
+		}
+		scratch, err := os.MkdirTemp(scratchRoot(), "verif-mutant-")
+		if err != nil {
+			return 2
+		}
+		res := func() string {
+			defer os.RemoveAll(scratch)
+			repoCopy := filepath.Join(scratch, "repo")
+			if out, err := exec.Command("git", "clone", "-q", "--shared", repoDir, repoCopy).CombinedOutput(); err != nil {
+				return "ERROR clone: " + string(out)
+			}
+			// carry over uncommitted changes of the working tree
+			if diff, _ := exec.Command("git", "-C", repoDir, "diff", "HEAD").Output(); len(diff) > 0 {
+				c := exec.Command("git", "-C", repoCopy, "apply")
+				c.Stdin = strings.NewReader(string(diff))
+				c.Run()
+			}
+			if out, err := exec.Command("git", "-C", repoCopy, "apply", filepath.Join(d, "patch.diff")).CombinedOutput(); err != nil {
+				return "ERROR patch does not apply: " + string(out)
+			}
+			tier := meta.Tier
+			if tier == "" {
+				tier = "quick"
+			}
+			c := exec.Command(self, "check", meta.Property, tier)
+			c.Env = append(os.Environ(), "VERIF_REPO="+repoCopy, "VERIF_DIR="+filepath.Join(scratch, "verifdir"), "VERIF_SEED="+fmt.Sprint(baseSeed()))
+			if meta.Scale != "" {
+				c.Env = append(c.Env, "VERIF_SCALE="+meta.Scale)
+			}
+			// the check writes evidence and replays below VERIF_DIR: give it a private copy of what it reads
+			os.MkdirAll(filepath.Join(scratch, "verifdir"), 0o755)
+			os.Symlink(filepath.Join(verifDir, "sim"), filepath.Join(scratch, "verifdir", "sim"))
+			if kf, err := os.ReadFile(filepath.Join(verifDir, "known_findings.json")); err == nil {
+				os.WriteFile(filepath.Join(scratch, "verifdir", "known_findings.json"), kf, 0o644)
+			}
+			out, err := c.CombinedOutput()
+			code := 0
+			if ee, ok := err.(*exec.ExitError); ok {
+				code = ee.ExitCode()
+			} else if err != nil {
+				return "ERROR " + err.Error()
+			}
+			var classes []string
+			for _, l := range strings.Split(string(out), "\n") {
+				if strings.HasPrefix(l, "  class: ") {
+					classes = append(classes, strings.TrimPrefix(l, "  class: "))
+				}
+			}
+			switch {
+			case code == 1 && strings.Contains(string(out), "VIOLATION property="+meta.Property):
+				return "VIOLATION [" + strings.Join(classes, "; ") + "]"
+			case code == 0:
+				return "clean"
+			}
+			return fmt.Sprintf("ERROR exit %d: %s", code, firstLines(string(out), 15))
+		}()
+		ok := (meta.Expect == "violation" && strings.HasPrefix(res, "VIOLATION")) || (meta.Expect == "clean" && res == "clean")
+		status := "ok  "
+		if !ok {
+			status = "FAIL"
+			fails++
+		}
+		line := fmt.Sprintf("%s %-38s %s expect=%-9s got=%s", status, name, meta.Property, meta.Expect, res)
+		fmt.Println(line)
+		lines = append(lines, line)
+	}
+	fmt.Printf("sensitivity: %d patch(es), %d unexpected result(s)\n", len(lines), fails)
+	if fails > 0 {
+		return 1
+	}
+	return 0
 }
